@@ -11,6 +11,8 @@ package c06
 import (
 	"context"
 	"fmt"
+	"os"
+	"strings"
 	"testing"
 	"time"
 
@@ -96,16 +98,17 @@ func runTTL(tc ttlCase) (o ttlOutcome) {
 
 	for i, a := range tc.Arrivals {
 		time.Sleep(time.Duration(a.GapMs) * time.Millisecond)
-		id := fmt.Sprintf("c%d-t%d", caseID, i+1)
+		id := fmt.Sprintf("t%d", i+1)
+		txid := fmt.Sprintf("c%d-%s", caseID, id)
 		r := &rq{ID: id, PrioName: a.Prio, P: prioNum(a.Prio)}
-		w.locked(func() { w.reqs[id] = r })
+		w.locked(func() { w.reqs[txid] = r })
 		order = append(order, r)
 		h := map[string]string{"host": "h.com"}
 		if a.Prio != "" {
 			h["x-prio"] = a.Prio
 		}
 		r.t0 = time.Now()
-		tx := engine.Txn{ID: id, Method: "GET", URL: "h.com/q", Path: "/q", Headers: h, Time: r.t0}
+		tx := engine.Txn{ID: txid, Method: "GET", URL: "h.com/q", Path: "/q", Headers: h, Time: r.t0}
 		go func() {
 			res := engine.RunRequest(s, tx)
 			t1 := time.Now()
@@ -174,7 +177,9 @@ func runTTL(tc ttlCase) (o ttlOutcome) {
 		var vs []bool
 		var res engine.Result
 		var t1 time.Time
-		w.locked(func() { returned, registered, vs, res, t1 = r.returned, r.registered, append([]bool{}, r.verdicts...), r.res, r.t1 })
+		w.locked(func() {
+			returned, registered, vs, res, t1 = r.returned, r.registered, append([]bool{}, r.verdicts...), r.res, r.t1
+		})
 		if !returned {
 			o.Violation = fmt.Sprintf("%s never got a verdict: %v after its arrival (ttl %ds) it still waits", r.ID, ttlGiveUp, ttlSeconds)
 			return
@@ -278,6 +283,9 @@ func TestTTLRealClock(t *testing.T) {
 		journal(tc)
 		o := runTTL(tc)
 		clearJournal()
+		if os.Getenv("C06_VERBOSE") != "" {
+			fmt.Printf("TTL %s\n  %s\n", ev.JSON(tc), strings.Join(o.Trace, "\n  "))
+		}
 		for _, c := range o.Classes {
 			r.Class(c)
 		}
